@@ -46,7 +46,7 @@ def run(cmd, cwd=None, env=None, timeout=None):
         return -9, out + "\n[timeout after %ss]" % timeout, time.time() - t0
 
 
-CHECK_RE = re.compile(r"Check \d+: (\S+)\n\s+- Status: (\w+)\n\s+- Description: \"(.*)\"\n\s+- Location: (.*)")
+CHECK_RE = re.compile(r"Check \d+: (\S+)\n\s+- Status: (\w+)\n\s+- Description: \"(.*?)\"\n\s+- Location: ([^\n]*)", re.S)
 
 
 def parse_kani(out):
@@ -78,6 +78,9 @@ def classify(h, spec, out, rc):
             if st != "SATISFIED":
                 res["covers"][d] = c["status"]
             continue
+        if spec.get("contract_proof") and d.lstrip('"').startswith("|"):
+            # the post-condition of a Kani function contract (its description is the ensures closure)
+            d = "OBL:%s.contract.%s: %s" % (spec["props"][0], h.replace("contract_", ""), " ".join(d.split())[:160])
         if d.startswith("OBL:"):
             oid = d[4:].split(":")[0].strip()
             prev = res["obligations"].get(oid)
@@ -214,6 +217,7 @@ def run_kani_jobs(ctx, harnesses):
         vs = registry.VARIANTS[variant]
         mods = sorted({s["module"] for s in hs.values() if s.get("module")} | {m for s in hs.values() for m in s.get("extra_modules", [])})
         mods = sorted(set(mods) | set(vs.get("modules", [])))
+        mods = sorted(set(mods) | {d for m in mods for d in getattr(registry, "MODULE_DEPS", {}).get(m, [])})
         gens = sorted({s["generator"] for s in hs.values() if s.get("generator")})
 
         def do_extract(skip=()):
